@@ -290,7 +290,8 @@ Enqueue(i, n) ==
 \* enqueue(): the channel was full (then SetError(ErrFullQueue), Cancel, error returned)
 QueueFull(i, n) ==
     /\ i \in Ids /\ ops[i].type \in {"pin", "unpin"}
-    /\ ST => (ops[i].pc = "new" /\ Len(QOf(ops[i].type)) >= conf.Q /\ n = conf.Q)
+    /\ ST => /\ ops[i].pc = "new" /\ Len(QOf(ops[i].type)) >= conf.Q
+             /\ n <= conf.Q /\ n >= conf.Q - (IF Lag THEN Idle(ops[i].type) ELSE 0)
     /\ ops' = [ops EXCEPT ![i].pc = IF @ = "new" THEN "full" ELSE @]
     /\ hist' = [hist EXCEPT !.fullq = @ \cup {i}]
     /\ UNCHANGED <<nops, table, pinQ, unpinQ, mu, down, conf>>
